@@ -100,6 +100,13 @@ PROBES = {
  "exception through finally": PRE + "fn thrower() { throw %s; } try { try { thrower(); } finally { junk(); junk(); } } catch e { print(e); print(e[1]); }" % WIT,
  "error object context": PRE + "try { [1][5]; } catch e { junk(); junk(); print(e.context); print(type(e)); }",
  "return value through finally": PRE + "fn f() { try { return %s; } finally { junk(); junk(); } } print(f());" % WIT,
+ "open captured-variable list link": PRE + "fn run() { var a = %s; var b = (1, [2]); var c = (3, [4]); var fa = || a; { var fb = || b; print(fb()); } var fc = || c; junk(); junk(); print(fa()); print(fc()); return fa; } var k = run(); junk(); print(k());" % WIT,
+ "open captured-variable list link (reverse order)": PRE + "fn run() { var a = %s; var b = (1, [2]); var c = (3, [4]); var fc = || c; { var fb = || b; print(fb()); } var fa = || a; junk(); junk(); var fd = || [a, b]; print(fd()); return fa; } var k = run(); junk(); print(k());" % WIT,
+ "temporary vec sliced": PRE + "print([%s, (1, [2]), junk()][0..2]); fn mk() { return [%s, (3, [4])]; } print(mk()[0..2]); print(mk()[1]);" % (WIT, WIT),
+ "temporary tuple sliced": PRE + "print((%s, (1, [2]), junk())[0..2]); fn mk() { return (%s, (3, [4])); } print(mk()[0..2]); print(mk()[1]);" % (WIT, WIT),
+ "temporary receiver of natives": PRE + "fn mk() { return [%s, (3, [4])]; } print(mk().iter().next()); print(mk().pop()); print(mk().push(junk())); var m = {1: %s}; print({1: %s}.values()); print({(1, (2, 3)): 1}.keys()); print({1: %s}.items());" % (WIT, WIT, WIT, WIT),
+ "temporary in string operations": "fn s() { return \"ab\" + \"cd\"; } print(s()[1..3] + s()); print((s() + s()).split(\"c\")); print(\"${s()}${[s()]}\"); print(String.from([s(), (1, [2])])); print(s().replace(\"b\", s()));",
+ "temporary closure in fiber and bound method": PRE + "fn mk() { var w = %s; return || w; } print(Fiber.new(mk()).call()); #[constructor(new)] class C { fn m(self) { return self.f; } } fn mi() { var i = C.new(); i.f = %s; return i; } print(mi().m()); var bm = mi().m; junk(); print(bm());" % (WIT, WIT),
  "string pieces": "var parts = \"a,b,c\".split(\",\"); var j = [1]; var k = [2]; print(parts); print(parts[1] + parts[2]);",
 }
 PROBE_MODULES = {"m1": "var w = %s; fn f() { return w[0]; }" % WIT}
@@ -147,6 +154,23 @@ def main(tier, seed):
     for name, src, exp in items:
         for gc in scheds:
             cases.append({"id": ["corpus", name, gc], "main": src, "modules": modules, "gc": gc, "quarantine": True, "events": 1})
+    # ---- 5. the scenario families of the other properties (closures in every capture order and exit path, exceptions,
+    #         fibers, classes, iteration, maps) under the same schedules: mid-operation values of every VM operation
+    import scenarios
+    import yprog
+    fam = scenarios.capture_scenarios()[::3] + scenarios.capture_order_scenarios() + scenarios.exception_scenarios() + scenarios.exit_path_scenarios()
+    n = 300 if tier == "quick" else 3000
+    fam += scenarios.fiber_scenarios(random.Random(seed), n, nfib=3) + scenarios.class_scenarios(random.Random(seed), n)
+    fam += scenarios.iteration_scenarios(random.Random(seed), n) + scenarios.hashmap_scenarios(random.Random(seed), n)
+    nfam = 0
+    for pid, toks in fam:
+        if isinstance(toks, dict):
+            continue
+        src = yprog.program_src(toks)
+        nfam += 1
+        for gc in (("never", "always") if tier == "quick" else ("never", "always", "every:3:1")):
+            cases.append({"id": ["scenario", pid, gc], "main": src, "modules": {}, "gc": gc, "quarantine": True, "events": 1, "natives": True})
+    rep.coverage["scenario_programs"] = nfam
     builds = [("dev", dev)] + ([("release", rel)] if tier == "thorough" else [])
     nprog = 0
     for bname, binary in builds:
